@@ -389,7 +389,8 @@ MORE_THM = {
         "keys with equal SHA-1 touch the same index paths and nothing else of the key reaches a path (index_ops_paths, "
         "same_sha1_same_paths).",
  "C16": " From any healthy cache, writing the same bytes twice (any flavours, any keys) leaves the file at the address "
-        "byte-identical and the abstract store unchanged by the second write (rewrite_same_bytes). THE DRIVER'S DIGEST FUNCTION: Sha.lean's SHA-1/256/384/512 return exactly 20/32/48/64 bytes for every input, so the configuration compared with the code satisfies HexLen (hexLen_mkCfg) and the refinement theorems hold for it without that hypothesis (C16x: address_shape_driver, cache_refines_map_driver, ...); kernel-checked known-answer tests of Sha.lean (tests, not the claim).",
+        "byte-identical and the abstract store unchanged by the second write (rewrite_same_bytes). THE DRIVER'S DIGEST FUNCTION: Sha.lean's SHA-1/256/384/512 return exactly 20/32/48/64 bytes for every input, so the configuration compared with the code satisfies HexLen (hexLen_mkCfg) and the refinement theorems hold for it without that hypothesis (C16x: address_shape_driver, cache_refines_map_driver, ...); kernel-checked known-answer tests of Sha.lean (tests, not the claim). Whenever the address of some bytes already holds them (written by any earlier call, any number of operations ago), a "
+        "by-address write of the same bytes leaves every address -> bytes mapping as it was (rewrite_is_noop, Lemmas/SpecLaws).",
  "C19": " A wrong declared size answers exactly the size error when the link phase succeeds, the link phase's own I/O error "
         "otherwise (linkto_size_enforced, linkto_size_exact).",
  "C20": " KEYED operations: under every fault plan read / streamed open / extraction / remove_fully answer the panic result IF "
